@@ -24,7 +24,8 @@ from ..gens import floats, log_floats
 EPS = 2.220446049250313e-16
 N_A = 6.02214076e23          # exact SI value (CODATA 2018)
 P_REJECT = 1e-9              # DESIGN 2.6
-BLOCK = 40000                # draws per statistical block (DESIGN 2.6, quick size)
+BLOCK = 40000                # particles per statistical block (DESIGN 2.6, quick size)
+BLOCK_METHOD = 200000        # draws per block when the sampler method is called directly
 
 # (short name, long name, PDG value)
 PTYPES = [
@@ -269,15 +270,36 @@ def interaction_cases(draw, focus=None):
                 seed=draw(gens.seeds32), n=n)
 
 
+ONE_MINUS = 1.0 - 2.0 ** -53      # largest value np.random.rand() can return
+stream_values = st.one_of(
+    st.sampled_from([0.0, 2.0 ** -53, ONE_MINUS, 0.5]),
+    log_floats(1e-300, 1e-3),
+    log_floats(1e-16, 1e-3).map(lambda d: min(ONE_MINUS, 1.0 - d)),
+    floats(0.0, ONE_MINUS))
+
+
+@st.composite
+def stream_cases(draw):
+    """A configuration plus the first values that np.random.rand() will return."""
+    return dict(ptype=draw(st.integers(0, 5)), id_form="value", energy=draw(energies),
+                e_form="float", model=draw(st.sampled_from(["GQRS", "CTW", "default"])),
+                kind=draw(st.sampled_from([None, "cc", "cc", "nc"])), kind_form="short",
+                sec=draw(st.sampled_from([True, True, False])),
+                stream=draw(st.lists(stream_values, min_size=1, max_size=6)),
+                seed=draw(gens.seeds32), n=draw(st.integers(1, 3)))
+
+
 @st.composite
 def block_cases(draw, forced=True):
     """One statistical block: fixed configuration, BLOCK draws."""
     e = draw(st.one_of(log_floats(1e3, 1e12), st.sampled_from(DECADES)))
+    via = draw(st.sampled_from(["particle", "method"]))
     return dict(ptype=draw(st.integers(0, 5)), id_form="value", energy=e, e_form="float",
-                model=draw(st.sampled_from(["GQRS", "CTW", "CTW", "default"])),
+                model=draw(st.sampled_from(["GQRS", "CTW", "default"])),
                 kind=draw(st.sampled_from([None, "cc", "nc"])) if forced else None,
                 kind_form="short", sec=draw(st.booleans()),
-                seed=draw(gens.seeds32), n=BLOCK)
+                seed=draw(gens.seeds32), via=via,
+                n=BLOCK if via == "particle" else BLOCK_METHOD)
 
 
 @st.composite
@@ -324,7 +346,8 @@ def tree_cases(draw):
 # per-draw invariants
 
 TOL = 1e-12   # DESIGN 3/C14: absolute slack of the [0,1] bounds and of the sums
-              # (a handful of ulp of quantities <= 1)
+              # (rounding of expressions like c1 + (y-c1), (1-y) + y with terms <= 1);
+              # applied on both sides so that a result like -3e-18 is not a finding
 
 
 def _check_one_interaction(case, p, classes):
@@ -341,8 +364,8 @@ def _check_one_interaction(case, p, classes):
                 "%s = %r is not a finite scalar", name, v)
     y, em, had = float(y), float(em), float(had)
     ctx = (PTYPES[case["ptype"]][0], kind, case["model"], case["sec"], case["energy"])
-    require(0.0 <= y <= 1.0 + TOL, "inelasticity %r outside [0,1] (%r)", y, ctx)
-    require(em >= 0.0 and had >= 0.0, "negative shower fraction em=%r had=%r (%r)", em, had, ctx)
+    require(-TOL <= y <= 1.0 + TOL, "inelasticity %r outside [0,1] (%r)", y, ctx)
+    require(em >= -TOL and had >= -TOL, "negative shower fraction em=%r had=%r (%r)", em, had, ctx)
     require(em + had <= 1.0 + TOL, "em+had = %r exceeds 1 (em=%r had=%r y=%r, %r)",
             em + had, em, had, y, ctx)
     flavour = abs(PTYPES[case["ptype"]][2])
@@ -410,23 +433,88 @@ def check_bounds(case, rec):
     rec.case(case, nontrivial=len(ys) >= 2, classes=classes)
 
 
+class _ScriptedRand:
+    """Stand-in for np.random.rand: returns the scripted values first (scalar
+    calls only), then the seeded generator.  Every value is one that
+    np.random.rand() can return (a float in [0, 1))."""
+
+    def __init__(self, values):
+        self.values = list(values)
+        self.used = 0
+        self.real = np.random.rand
+
+    def __call__(self, *shape):
+        if shape or self.used >= len(self.values):
+            return self.real(*shape)
+        v = self.values[self.used]
+        self.used += 1
+        return v
+
+
+def check_stream(case, rec):
+    """'any random stream': the uniform variates themselves are the input, so the
+    ends of [0,1) (probability 2^-53 per draw under seeding) are reachable."""
+    np.random.seed(case["seed"])
+    classes = set()
+    scripted = _ScriptedRand(case["stream"])
+    np.random.rand = scripted
+    try:
+        for _ in range(case["n"]):
+            p = make_particle(case)
+            _check_one_interaction(case, p, classes)
+    finally:
+        np.random.rand = scripted.real
+    if scripted.used:
+        classes.add("stream_consumed")
+    if any(v in (0.0, 2.0 ** -53) for v in case["stream"][:scripted.used]):
+        classes.add("consumed_zero_end")
+    if any(v >= 1.0 - 1e-15 for v in case["stream"][:scripted.used]):
+        classes.add("consumed_one_end")
+    classes.add(_model_name(case))
+    rec.case(case, nontrivial=scripted.used > 0, classes=classes)
+
+
+def classify_stream(case, exc):
+    if isinstance(exc, OverflowError) and "infinity" in str(exc):
+        return "inelasticity==1 -> lepton energy 0 -> OverflowError in secondaries energy index"
+    return None
+
+
 # ---------------------------------------------------------------------------
 # distributions
 
 
-def _draw_block(case):
+def _draw_block(case, what):
+    """`n` interactions of one configuration.  via="particle": n particles are
+    constructed (the route every user takes); via="method": one particle, then
+    the documented sampler method (`choose_interaction` / `choose_inelasticity`)
+    is called n times on its interaction - five times the sample at equal cost."""
     np.random.seed(case["seed"])
     kinds = np.empty(case["n"], dtype=bool)
-    ys = np.empty(case["n"])
-    for i in range(case["n"]):
-        it = make_particle(case).interaction
-        kinds[i] = (it.kind.value == 1)
-        ys[i] = it.inelasticity
+    ys = np.zeros(case["n"])
+    if case.get("via", "particle") == "particle":
+        for i in range(case["n"]):
+            it = make_particle(case).interaction
+            kinds[i] = (it.kind.value == 1)
+            ys[i] = it.inelasticity
+        return kinds, ys
+    it = make_particle(case).interaction
+    if what == "kind":
+        cc = type(it).Type.charged_current
+        nc = type(it).Type.neutral_current
+        for i in range(case["n"]):
+            k = it.choose_interaction()
+            require(k is cc or k is nc, "choose_interaction returned %r", k)
+            kinds[i] = k is cc
+    else:
+        kinds[:] = (_kind_of(it) == "cc")
+        for i in range(case["n"]):
+            ys[i] = it.choose_inelasticity()
     return kinds, ys
 
 
 def check_kind_dist(case, rec):
-    kinds, _ = _draw_block(case)
+    kinds, _ = _draw_block(case, "kind")
     n = len(kinds)
     k = int(np.count_nonzero(kinds))
     p_cc = ref_cc_probability(_model_name(case), case["energy"])
@@ -436,22 +524,24 @@ def check_kind_dist(case, rec):
             "(expected %.0f, two-sided binomial p=%.3g) for %s, %s, E=%r",
             k, n, p_cc, n * p_cc, pv, _model_name(case), PTYPES[case["ptype"]][0], case["energy"])
     rec.case(case, nontrivial=0 < k < n,
-             classes=[_model_name(case), "E<1e6" if case["energy"] < 1e6 else "E>=1e6"])
+             classes=[_model_name(case), "E<1e6" if case["energy"] < 1e6 else "E>=1e6",
+                      "via_" + case.get("via", "particle")])
 
 
 def check_inelasticity_dist(case, rec):
-    kinds, ys = _draw_block(case)
+    kinds, ys = _draw_block(case, "y")
     model = _model_name(case)
     sign = _sign(case["ptype"])
-    classes = {model, "forced" if case["kind"] else "unforced"}
-    require(np.all(np.isfinite(ys)) and ys.min() >= 0.0 and ys.max() <= 1.0 + TOL,
+    classes = {model, "forced" if case["kind"] else "unforced",
+               "via_" + case.get("via", "particle")}
+    require(np.all(np.isfinite(ys)) and ys.min() >= -TOL and ys.max() <= 1.0 + TOL,
             "inelasticities outside [0,1]: min %r max %r", float(ys.min()), float(ys.max()))
     tested = 0
     for kind, mask in (("cc", kinds), ("nc", ~kinds)):
         sample = ys[mask]
         n = len(sample)
         if case["kind"] is not None:
-            require((n == len(ys)) == (kind == case["kind"]) and n in (0, len(ys)),
+            require(n == (len(ys) if kind == case["kind"] else 0),
                     "forced kind %r not respected", case["kind"])
         if n < 2000:
             continue
@@ -760,21 +850,32 @@ PROPERTY = Property(
                  rule="mu/tau (anti)neutrinos, secondaries on, mostly forced CC, 40-160 draws per "
                       "case: secondary fractions within the lepton energy and above the primary; "
                       "non-trivial = at least two different inelasticities drawn",
-                 floors={"mutau_cc_secondary": 0.5, "secondary_em_and_had": 0.1}),
+                 floors={"mutau_cc_secondary": 0.5, "secondary_em_and_had": 0.07}),
+        SubCheck("stream_extremes", stream_cases(), check_stream, quick=3200, thorough=160000,
+                 rule="configuration as in `bounds` plus the first 1-6 values returned by "
+                      "np.random.rand() (0, 2^-53, 1-2^-53, tiny, nearly one, uniform; the seeded "
+                      "generator afterwards); 1-3 particles, per-draw clauses; non-trivial = at "
+                      "least one scripted value was consumed by pyrex",
+                 floors={"stream_consumed": 0.9, "consumed_zero_end": 0.15,
+                         "consumed_one_end": 0.15, "GQRS": 0.12, "nue_cc": 0.05,
+                         "mutau_cc_secondary": 0.02},
+                 classify=classify_stream),
         SubCheck("kind_dist", block_cases(forced=False), check_kind_dist,
                  quick=48, thorough=2400, quick_shards=8,
-                 rule="one configuration (type, energy, model, secondaries) x %d particles: exact "
-                      "binomial test of the number of CC interactions against the published "
-                      "probability, rejection at p<1e-9; non-trivial = both kinds occurred" % BLOCK,
-                 floors={"GQRS": 0.08, "CTW": 0.3}),
+                 rule="one configuration (type, energy, model, secondaries) x %d constructed particles, "
+                      "or x %d calls of choose_interaction on one particle: exact binomial test of the "
+                      "number of CC interactions against the published probability, rejection at "
+                      "p<1e-9; non-trivial = both kinds occurred" % (BLOCK, BLOCK_METHOD),
+                 floors={"GQRS": 0.08, "CTW": 0.25, "via_particle": 0.15, "via_method": 0.15}),
         SubCheck("inelasticity_dist", block_cases(forced=True), check_inelasticity_dist,
                  quick=64, thorough=3200, quick_shards=8,
-                 rule="one configuration x %d particles: KS distance (DKW bound, p<1e-9) of the "
+                 rule="one configuration x %d constructed particles, or x %d calls of "
+                      "choose_inelasticity on one particle: KS distance (DKW bound, p<1e-9) of the "
                       "inelasticities of each interaction type against the analytic CDF of the "
                       "published density, plus low-y weight (binomial) and per-region KS for CTW; "
-                      "non-trivial = at least one sample of >=2000 tested" % BLOCK,
-                 floors={"GQRS": 0.08, "CTW": 0.3, "forced": 0.3, "low_y_tested": 0.1,
-                         "antineutrino": 0.2}),
+                      "non-trivial = at least one sample of >=2000 tested" % (BLOCK, BLOCK_METHOD),
+                 floors={"GQRS": 0.08, "CTW": 0.25, "forced": 0.25, "low_y_tested": 0.06,
+                         "antineutrino": 0.2, "via_particle": 0.15, "via_method": 0.15}),
         SubCheck("cross_sections", xsec_cases(), check_xsec, quick=2400, thorough=120000,
                  rule="type x model x energy ladder of 2-6 energies (steps 2e-6 .. 3 decades) x fresh "
                       "particles or one particle whose energy is reassigned; every case non-trivial",
@@ -793,12 +894,16 @@ PROPERTY = Property(
         "interactions are observed through Particle(...).interaction; secondaries are switched off "
         "through a subclass with include_secondaries=False (the documented class attribute)",
         "distributional clauses are decided at the stated power: rejection at p<1e-9 per test with "
-        "%d draws per block (detectable CDF shift about 1.6%%); the thorough tier runs more blocks, "
-        "not larger ones" % BLOCK,
+        "%d particles (detectable CDF shift about 1.6%%) or %d direct sampler calls (0.73%%) per "
+        "block; the thorough tier runs more blocks, not larger ones" % (BLOCK, BLOCK_METHOD),
+        "inelasticity is taken by its definition as the hadronic energy fraction of the primary "
+        "vertex (had = y for the primary shower; em = 1-y for CC electron neutrinos)",
         "the shape of the secondary-interaction tables is not part of the statement; only energy "
         "conservation of the resulting fractions is checked",
         "every particle object is added to a tree at most once (adding the same object twice does "
         "not build a tree)",
+        "stream_extremes replaces numpy.random.rand (scalar calls) by a scripted sequence of floats "
+        "in [0,1); numpy.random.poisson stays seeded",
         "N_A: any CODATA 2010-2018 value (relative tolerance 1e-7 on interaction lengths)",
     ],
     design_ref="3/C14",
